@@ -6,20 +6,39 @@ ParquetFile(dir) per step and checks all invariants in the state reached.
 """
 import hashlib
 import itertools
+import re
 
 ID = "C09"
 LEVEL = "model_checking"
 FLAVOUR = "plain"
 TIMEOUT = 300
-RULE = ("initial write (0, 1 or 2 partition columns) then up to depth d operations from {append(frame) x 4 frames, "
-        "append='overwrite'(frame) x 4, remove_row_groups(S) for every non-empty subset S of the first 4 row groups "
-        "(sort_pnames False and True), write_row_groups(frame, sort_key, sort_pnames=True), _sort_part_names}; BFS "
-        "with de-duplication on the canonical state (relative file paths + their rows + row-group order of "
-        "_metadata); depth 2 (quick) / 3 (thorough); invariants in every state: content == model per partition, "
-        "every referenced file exists and holds the stated rows, no unreferenced part file, schemas of "
-        "_metadata / _common_metadata / part files agree; a refused operation must leave the state unchanged")
-ASSUMPTIONS = ["row order inside the dataset is not compared (multiset per partition)",
-               "the rows a removal deletes are the rows of the chosen row groups as read in the (already validated) previous state"]
+RULE = ("initial write then up to depth d operations, BFS with de-duplication on the canonical state (relative file "
+        "paths + their bytes + row-group order of _metadata). Layouts: 'plain' with 0, 1 or 2 partition columns "
+        "(str p in {a, ab, c}, int q in {1, 12, 9}; two chunks), 'ts' (1 partition column of Timestamps "
+        "2020-01-01 / 2020-01-01 00:00:00.5 / 2021-06-15 12:00, whose directory names differ from str(value)), 'idx' "
+        "(1 partition column, a named int64 index written with the data), 'many' (0 or 1 partition columns, 12 "
+        "one-row chunks so that part numbers have two digits; depth 1 only). Operations on 'plain' and 'many': "
+        "append(frame) x 4 frames, append='overwrite'(frame) x 4, the same two with frame 'aa' split in two chunks "
+        "(row_group_offsets=[0,1]: two new files in one partition directory), remove_row_groups(S) for every non-empty "
+        "subset S of the first 4 row groups plus {last}, {all} (sort_pnames False; 4 subsets also True), "
+        "write_row_groups(frame, sort_key=file path, sort_pnames=True) x 2, _sort_part_names, a plain re-write "
+        "(append=False) over the existing dataset, and append / overwrite / write_row_groups of two frames that the "
+        "writer must refuse ('badtype': strings in the int64 column; 'halfbad': first partition group fine, a later "
+        "one unconvertible); the remove / write_row_groups / _sort_part_names operations also on the ParquetFile "
+        "object kept from the previous step instead of a re-opened one (6 representatives). On 'ts' and 'idx' "
+        "(quick): append x 4 and overwrite x 4 (+ the two-chunk pair); thorough: all operations, and 'ts' / 'idx' "
+        "with 2 partition columns. depth 2 (quick) / 3 (thorough, 'ts' and 'idx' 2). Invariants in every state: "
+        "content == model per partition, every referenced file exists and holds the stated rows, all column chunks of "
+        "a row group name the same file, no unreferenced part file, schemas of _metadata / _common_metadata / part "
+        "files agree; the ParquetFile object an operation was called on shows the same row groups and rows as a "
+        "re-opened one; after a renumbering operation every part.N file is numbered by the position of its first "
+        "row group; write_row_groups(sort_key) leaves the directories in key order; overwrite keeps the partitions "
+        "that existed in their former order, contiguous, and puts new partitions last; a refused operation must "
+        "leave the state unchanged")
+ASSUMPTIONS = ["row order inside a row group / partition is not compared (multiset per partition); of the row-group order only the "
+               "documented effects of sort_key, overwrite and renumbering are checked",
+               "the rows a removal deletes are the rows of the chosen row groups as read in the (already validated) previous state",
+               "a frame whose values cannot be converted to the dataset's column types is legitimately refused (ValueError)"]
 
 # partition values chosen so that one directory name is a textual prefix of another at the last level
 # (p=a / p=ab with one partition column, p=a/q=1 / p=a/q=12 with two)
@@ -29,9 +48,20 @@ FRAMES = {
     "c": [("c", 9)],
     "abc1": [("a", 1), ("ab", 12), ("c", 9), ("a", 12)],
 }
+# frames used only by specific operations
+EXTRA_FRAMES = {
+    "aa": [("a", 1), ("a", 1)],                       # written in two chunks: two files for one partition
+    "badtype": [("a", 1), ("c", 9)],                  # 'id' holds strings
+    "halfbad": [("a", 1), ("c", 9)],                  # 'v' of the second partition group is not a string
+    "many": [("a", 1), ("ab", 12), ("c", 9)] * 4,     # initial frame of layout 'many'
+}
+BAD_FRAMES = ("badtype", "halfbad")
+TS = {"a": "2020-01-01", "ab": "2020-01-01 00:00:00.5", "c": "2021-06-15 12:00:00"}
+PF_OPS = ("remove", "write_rgs", "sort_names")
+PART_NO = re.compile(r"(?:^|/)part\.(\d+)\.parquet$")
 
 
-def operations(nparts):
+def base_operations():
     ops = []
     for f in FRAMES:
         ops.append({"op": "append", "frame": f})
@@ -48,11 +78,61 @@ def operations(nparts):
     return ops
 
 
+def chunked_operations(tier):
+    ops = [{"op": "append", "frame": "aa", "offsets": [0, 1]},
+           {"op": "overwrite", "frame": "aa", "offsets": [0, 1]}]
+    if tier == "thorough":
+        ops.append({"op": "append", "frame": "abc1", "offsets": [0, 1, 2, 3]})
+        ops.append({"op": "overwrite", "frame": "abc1", "offsets": [0, 1, 2, 3]})
+    return ops
+
+
+def operations(nparts, lay="plain", tier="quick", prev=None):
+    """Operation alphabet in a state of layout `lay` reached by operation `prev`."""
+    if lay in ("ts", "idx") and tier != "thorough":
+        ops = [o for o in base_operations() if o["op"] in ("append", "overwrite")]
+        return ops + chunked_operations(tier)
+    ops = base_operations() + chunked_operations(tier)
+    ops.append({"op": "remove", "rgs": "last", "sort": False})
+    ops.append({"op": "remove", "rgs": "all", "sort": False})
+    ops.append({"op": "rewrite", "frame": "ab"})
+    for f in BAD_FRAMES:
+        for o in ("append", "overwrite", "write_rgs"):
+            ops.append({"op": o, "frame": f})
+    if prev is not None and prev["op"] in PF_OPS:
+        # the same operation on the object the previous operation was called on (no re-open in between)
+        ops.append({"op": "remove", "rgs": [0], "sort": False, "reuse": True})
+        ops.append({"op": "remove", "rgs": [0], "sort": True, "reuse": True})
+        ops.append({"op": "remove", "rgs": [1, 2], "sort": True, "reuse": True})
+        ops.append({"op": "write_rgs", "frame": "ab", "reuse": True})
+        ops.append({"op": "write_rgs", "frame": "c", "reuse": True})
+        ops.append({"op": "sort_names", "reuse": True})
+    if lay == "idx":
+        # write_row_groups does not take the index of the frame: only the operations going through write()
+        ops = [o for o in ops if o["op"] != "write_rgs"]
+    return ops
+
+
+def layouts(tier):
+    lays = [(0, "plain"), (1, "plain"), (2, "plain"), (1, "ts"), (1, "idx"), (0, "many"), (1, "many")]
+    if tier == "thorough":
+        lays += [(2, "ts"), (2, "idx")]
+    return lays
+
+
+def depth_of(lay, tier):
+    if lay == "many":
+        return 1
+    if tier == "thorough":
+        return 3 if lay == "plain" else 2
+    return 2
+
+
 def explore(run, tier):
     depth = 3 if tier == "thorough" else 2
     seen = {}
     st = {"states": 0, "transitions": 0}
-    initial = [{"nparts": n, "hist": []} for n in (0, 1, 2)]
+    initial = [{"nparts": n, "lay": lay, "hist": []} for n, lay in layouts(tier)]
 
     def on_result(point, res, submit):
         if res.get("outcome") in ("crash", "timeout", "harness_error"):
@@ -62,70 +142,121 @@ def explore(run, tier):
         key = res.get("state")
         if key is None or not res.get("ok"):
             return
-        k = (point["nparts"], key)
+        lay = point.get("lay", "plain")
+        k = (point["nparts"], lay, key)
         dep = len(point["hist"])
+        prev = point["hist"][-1] if point["hist"] else None
+        # the object-reuse operations depend on the kind of the last operation: part of the expansion key
+        k = k + (bool(prev is not None and prev["op"] in PF_OPS),)
         if k in seen and seen[k] <= dep:
             return          # already expanded from the same or a shorter history
         if k not in seen:
             st["states"] += 1
         seen[k] = dep
-        if dep >= depth:
+        if dep >= depth_of(lay, tier):
             return
-        for op in operations(point["nparts"]):
-            if op["op"] == "remove" and max(op["rgs"]) >= res.get("nrg", 0):
-                continue
-            submit({"nparts": point["nparts"], "hist": point["hist"] + [op]})
+        nrg = res.get("nrg", 0)
+        for op in operations(point["nparts"], lay, tier, prev):
+            if op["op"] == "remove":
+                if isinstance(op["rgs"], str):
+                    if nrg <= 4:
+                        continue    # 'last' / 'all' are among the enumerated subsets
+                elif max(op["rgs"]) >= nrg:
+                    continue
+            submit({"nparts": point["nparts"], "lay": lay, "hist": point["hist"] + [op]})
     run.dynamic("edit-histories", initial, "run", on_result)
     run.extra.update({"states": st["states"], "transitions": st["transitions"],
                       "traces_validated_against_impl": st["transitions"], "depth": depth})
 
 
 def crash_sig(point, res):
-    return {"nparts": point["nparts"], "symptom": res["outcome"],
+    return {"nparts": point["nparts"], "lay": point.get("lay", "plain"), "symptom": res["outcome"],
             "ops": ",".join(o["op"] for o in point["hist"])}
 
 
 # ------------------------------------------------------------------------------------
-def make_frame(name, step, nparts):
+def pval(name, lay):
+    if lay == "ts":
+        import pandas as pd
+        return pd.Timestamp(TS[name])
+    return name
+
+
+def pkey(name, lay):
+    """partition value as the oracle's canonical cell"""
+    if lay == "ts":
+        import pandas as pd
+        return ("ts", pd.Timestamp(TS[name]).value)
+    return name
+
+
+def make_frame(name, step, nparts, lay="plain"):
     import pandas as pd
-    rows = FRAMES[name]
+    rows = FRAMES.get(name) or EXTRA_FRAMES[name]
     ids = [step * 100 + i for i in range(len(rows))]
-    df = pd.DataFrame({"id": pd.Series(ids, dtype="int64"),
-                       "v": pd.Series(["s%d" % i for i in ids], dtype=object),
-                       "p": pd.Series([r[0] for r in rows], dtype=object),
+    vs = ["s%d" % i for i in ids]
+    idcol = pd.Series(ids, dtype="int64")
+    vcol = pd.Series(vs, dtype=object)
+    if name == "badtype":
+        idcol = pd.Series(["x%d" % i for i in ids], dtype=object)
+    if name == "halfbad":
+        vcol = pd.Series([vs[0], 3.5], dtype=object)
+    pcol = (pd.Series([pval(r[0], lay) for r in rows]) if lay == "ts"
+            else pd.Series([r[0] for r in rows], dtype=object))
+    df = pd.DataFrame({"id": idcol, "v": vcol, "p": pcol,
                        "q": pd.Series([r[1] for r in rows], dtype="int64")})
-    return df, [(i, "s%d" % i, r[0], r[1]) for i, r in zip(ids, rows)]
+    model = [(i, "s%d" % i, pkey(r[0], lay), r[1]) for i, r in zip(ids, rows)]
+    if lay == "idx":
+        df.index = pd.Index([i + 1000 for i in ids], dtype="int64", name="ix")
+        model = [r + (r[0] + 1000,) for r in model]
+    return df, model
 
 
 def part_of(row, nparts):
     return tuple(row[2:2 + nparts])
 
 
-def read_state(path, nparts):
-    """-> (pf, per-row-group rows, all rows)"""
-    import fastparquet
+def rows_of(df, lay):
+    """rows of a frame read from the dataset as model tuples"""
     from mc import oracles as O
+    if len(df) == 0:
+        return []
+    cols = {c: O.series_to_list(df[c]) for c in df.columns}
+    rows = [(cols["id"][j], cols["v"][j], cols["p"][j], cols["q"][j]) for j in range(len(df))]
+    if lay == "idx":
+        ix = O.series_to_list(df.index) if df.index.name == "ix" else cols.get("ix", [None] * len(df))
+        rows = [r + (i,) for r, i in zip(rows, ix)]
+    return rows
+
+
+def read_state(path, nparts, lay="plain"):
+    """-> (pf, per-row-group rows)"""
+    import fastparquet
     pf = fastparquet.ParquetFile(path)
     per = []
     for i in range(len(pf.row_groups)):
-        df = pf[i].to_pandas()
-        cols = {c: O.series_to_list(df[c]) for c in df.columns}
-        per.append([(cols["id"][j], cols["v"][j], cols["p"][j], cols["q"][j]) for j in range(len(df))])
+        per.append(rows_of(pf[i].to_pandas(), lay))
     return pf, per
 
 
-def invariants(path, nparts, model, bad):
+def rg_list(pf):
+    return [(rg.columns[0].file_path, rg.num_rows) for rg in pf.row_groups]
+
+
+def dir_of(fp):
+    return fp.rsplit("/", 1)[0] + "/" if "/" in fp else ""
+
+
+def invariants(path, nparts, model, bad, lay="plain"):
     import os
     import fastparquet
     from mc.specpq import file as F
-    from mc import oracles as O
     try:
         pf = fastparquet.ParquetFile(path)
         df = pf.to_pandas()
     except Exception as e:
         return bad("unreadable", "dataset cannot be read: %s: %s" % (type(e).__name__, str(e)[:150]), exc=type(e).__name__)
-    cols = {c: O.series_to_list(df[c]) for c in df.columns}
-    got = sorted((cols["id"][j], cols["v"][j], cols["p"][j], cols["q"][j]) for j in range(len(df)))
+    got = sorted(rows_of(df, lay))
     want = sorted(model)
     if got != want:
         lost = [r for r in want if r not in got]
@@ -180,6 +311,17 @@ def invariants(path, nparts, model, bad):
             return bad("schema_mismatch", "%s schema differs from _metadata" % fp)
     if pm.fmd["num_rows"] != len(model):
         return bad("row_count_mismatch", "_metadata num_rows %d, model %d" % (pm.fmd["num_rows"], len(model)))
+    # every column chunk of a row group lives in the same file: fastparquet itself only ever looks at the first
+    # chunk, other readers at each of them
+    if len(pm.fmd["row_groups"]) != len(refs):
+        return bad("row_group_count", "_metadata holds %d row groups, fastparquet lists %d" % (
+            len(pm.fmd["row_groups"]), len(refs)))
+    for i, g in enumerate(pm.fmd["row_groups"]):
+        fps = [c.get("file_path") for c in g["columns"]]
+        fps = [x.decode() if isinstance(x, bytes) else x for x in fps]
+        if len(set(fps)) != 1 or fps[0] != refs[i]:
+            return bad("column_paths_differ", "row group %d of _metadata: column chunks name %r (first chunk: %r)" % (
+                i, sorted(set(map(str, fps))), refs[i]))
     return None
 
 
@@ -199,6 +341,19 @@ def canonical(path):
     return h.hexdigest(), len(pf.row_groups)
 
 
+def misnumbered(rgl):
+    """part.N files whose N is not the position of the first row group they hold"""
+    first = {}
+    for i, (fp, _) in enumerate(rgl):
+        first.setdefault(fp, i)
+    out = []
+    for fp, i in first.items():
+        m = PART_NO.search(fp)
+        if m and int(m.group(1)) != i:
+            out.append((fp, i))
+    return out
+
+
 def run(point):
     import os
     import shutil
@@ -206,10 +361,11 @@ def run(point):
     from fastparquet import writer
     from mc.scratch import scratch
     nparts, hist = point["nparts"], point["hist"]
+    lay = point.get("lay", "plain")
     d = scratch()
     path = os.path.join(d, "ds")
     parts = ["p", "q"][:nparts]
-    sig = {"nparts": nparts}
+    sig = {"nparts": nparts, "lay": lay}
 
     def bad(symptom, detail, **extra):
         s = dict(sig)
@@ -218,57 +374,84 @@ def run(point):
         s["ops"] = ",".join(o["op"] for o in hist)
         s.update(extra)
         return {"ok": False, "outcome": symptom, "nontrivial": True, "sig": s, "detail":
-                "history %r: %s" % ([_short(o) for o in hist], detail)}
+                "layout %s/%d history %r: %s" % (lay, nparts, [_short(o) for o in hist], detail)}
 
-    df0, rows0 = make_frame("abc1", 0, nparts)
-    df0b, rows0b = make_frame("ab", 1, nparts)
     import pandas as pd
-    fastparquet.write(path, pd.concat([df0, df0b], ignore_index=True), file_scheme="hive", partition_on=parts,
-                      row_group_offsets=[0, 3], write_index=False)
-    model = list(rows0) + list(rows0b)
+    if lay == "many":
+        df0, model = make_frame("many", 0, nparts, lay)
+        fastparquet.write(path, df0, file_scheme="hive", partition_on=parts,
+                          row_group_offsets=list(range(len(df0))), write_index=False)
+    else:
+        df0, rows0 = make_frame("abc1", 0, nparts, lay)
+        df0b, rows0b = make_frame("ab", 1, nparts, lay)
+        fastparquet.write(path, pd.concat([df0, df0b], ignore_index=(lay != "idx")), file_scheme="hive",
+                          partition_on=parts, row_group_offsets=[0, 3], write_index=(lay == "idx"))
+        model = list(rows0) + list(rows0b)
+    kept = None           # the ParquetFile the previous step operated on (and left valid)
     for i, op in enumerate(hist):
         step = i + 2
-        before_listing = None
         try:
-            pf, per = read_state(path, nparts)
+            pf, per = read_state(path, nparts, lay)
         except Exception as e:
             return bad("unreadable", "cannot re-open before step %d: %s" % (i, e))
         before_key = canonical(path)[0]
+        before_rgl = rg_list(pf)
+        if op.get("reuse"):
+            if kept is None:
+                return {"ok": True, "outcome": "not_applicable", "nontrivial": False}
+            pf = kept
+        kept = None
         refused = None
         try:
             if op["op"] == "append":
-                df, rows = make_frame(op["frame"], step, nparts)
-                fastparquet.write(path, df, file_scheme="hive", partition_on=parts, append=True)
+                df, rows = make_frame(op["frame"], step, nparts, lay)
+                fastparquet.write(path, df, file_scheme="hive", partition_on=parts, append=True,
+                                  row_group_offsets=op.get("offsets"))
                 model = model + rows
             elif op["op"] == "overwrite":
-                df, rows = make_frame(op["frame"], step, nparts)
+                df, rows = make_frame(op["frame"], step, nparts, lay)
                 new_model = [r for r in model if part_of(r, nparts) not in {part_of(x, nparts) for x in rows}] + rows
-                fastparquet.write(path, df, file_scheme="hive", partition_on=parts, append="overwrite")
+                fastparquet.write(path, df, file_scheme="hive", partition_on=parts, append="overwrite",
+                                  row_group_offsets=op.get("offsets"))
                 model = new_model
+            elif op["op"] == "rewrite":
+                df, rows = make_frame(op["frame"], step, nparts, lay)
+                fastparquet.write(path, df, file_scheme="hive", partition_on=parts, write_index=(lay == "idx"))
+                model = rows
             elif op["op"] == "remove":
-                if max(op["rgs"]) >= len(pf.row_groups):
+                n = len(pf.row_groups)
+                which = op["rgs"]
+                if which == "last":
+                    which = [n - 1]
+                elif which == "all":
+                    which = list(range(n))
+                if not which or max(which) >= n or n != len(per):
                     return {"ok": True, "outcome": "not_applicable", "nontrivial": False}
-                gone = [r for g in op["rgs"] for r in per[g]]
-                pf.remove_row_groups([pf.row_groups[g] for g in op["rgs"]], sort_pnames=op["sort"])
+                gone = [r for g in which for r in per[g]]
+                pf.remove_row_groups([pf.row_groups[g] for g in which], sort_pnames=op["sort"])
                 m2 = list(model)
                 for r in gone:
                     m2.remove(r)
                 model = m2
             elif op["op"] == "write_rgs":
-                df, rows = make_frame(op["frame"], step, nparts)
+                df, rows = make_frame(op["frame"], step, nparts, lay)
                 pf.write_row_groups(df, sort_key=lambda rg: rg.columns[0].file_path, sort_pnames=True)
                 model = model + rows
             elif op["op"] == "sort_names":
                 pf._sort_part_names()
         except Exception as e:
             refused = e
+        if refused is None and op.get("frame") in BAD_FRAMES:
+            return bad("bad_frame_accepted", "step %d %s: a frame with unconvertible values was accepted" % (i, _short(op)),
+                       frame=op["frame"])
         if refused is not None:
             # a refusal must leave the dataset exactly as it was
             # refusals that are legitimate and judged only for leaving the state unchanged: partition overwrite
             # on an unpartitioned dataset; any write to a dataset emptied of all row groups (it has no paths
-            # left to derive its partitioning from)
+            # left to derive its partitioning from); a frame whose values cannot be converted
             legit = isinstance(refused, ValueError) and ((op["op"] == "overwrite" and nparts == 0)
-                                                         or len(pf.row_groups) == 0)
+                                                         or len(before_rgl) == 0
+                                                         or op.get("frame") in BAD_FRAMES)
             try:
                 after_key = canonical(path)[0]
             except Exception as e2:
@@ -276,12 +459,54 @@ def run(point):
                     i, _short(op), type(refused).__name__, e2), exc=type(refused).__name__)
             if after_key != before_key:
                 return bad("refusal_changed_state", "step %d %s raised %s: %s but the dataset changed" % (
-                    i, _short(op), type(refused).__name__, str(refused)[:100]), exc=type(refused).__name__)
+                    i, _short(op), type(refused).__name__, str(refused)[:100]), exc=type(refused).__name__,
+                    frame=op.get("frame") or "")
             if not legit:
                 return bad("operation_raised", "step %d %s raised %s: %s" % (i, _short(op), type(refused).__name__, str(refused)[:150]),
                            exc=type(refused).__name__)
             return {"ok": True, "outcome": "refused", "nontrivial": False}
-    r = invariants(path, nparts, model, bad)
+        # ---- what the operation promises about names and order (judged on a re-opened dataset)
+        try:
+            after_rgl = rg_list(fastparquet.ParquetFile(path))
+        except Exception as e:
+            return bad("unreadable", "cannot re-open after step %d %s: %s: %s" % (
+                i, _short(op), type(e).__name__, str(e)[:150]), exc=type(e).__name__)
+        renumbers = (op["op"] in ("write_rgs", "sort_names", "overwrite")
+                     or (op["op"] == "remove" and op["sort"]))
+        if renumbers:
+            mis = misnumbered(after_rgl)
+            if mis:
+                return bad("misnumbered", "step %d %s: part files not numbered by the position of their first row "
+                           "group: %r in %r" % (i, _short(op), mis[:3], [fp for fp, _ in after_rgl]), step_op=op["op"])
+        if op["op"] == "write_rgs":
+            keys = [dir_of(fp) for fp, _ in after_rgl]
+            if keys != sorted(keys):
+                return bad("order", "step %d %s: row groups not in sort_key order: %r" % (
+                    i, _short(op), [fp for fp, _ in after_rgl]), step_op=op["op"])
+        if op["op"] == "overwrite":
+            old = [dir_of(fp) for fp, _ in before_rgl]
+            rank = [old.index(dir_of(fp)) if dir_of(fp) in old else len(old) for fp, _ in after_rgl]
+            if rank != sorted(rank):
+                return bad("order", "step %d %s: partitions not kept in their former order with new ones last: "
+                           "before %r after %r" % (i, _short(op), [fp for fp, _ in before_rgl],
+                                                   [fp for fp, _ in after_rgl]), step_op=op["op"])
+        # ---- the object the operation was called on must show what a re-opened one shows
+        if op["op"] in PF_OPS:
+            try:
+                mem_rgl = rg_list(pf)
+                mem_rows = sorted(rows_of(pf.to_pandas(), lay)) if model else []
+            except Exception as e:
+                return bad("stale_object", "step %d %s: the ParquetFile the operation was called on cannot be read "
+                           "afterwards: %s: %s" % (i, _short(op), type(e).__name__, str(e)[:150]),
+                           step_op=op["op"], kind="unreadable")
+            if mem_rgl != after_rgl:
+                return bad("stale_object", "step %d %s: row groups of the object operated on %r, of a re-opened "
+                           "one %r" % (i, _short(op), mem_rgl, after_rgl), step_op=op["op"], kind="row_groups")
+            if mem_rows != sorted(model):
+                return bad("stale_object", "step %d %s: the object operated on reads %d rows, the model has %d" % (
+                    i, _short(op), len(mem_rows), len(model)), step_op=op["op"], kind="rows")
+            kept = pf
+    r = invariants(path, nparts, model, bad, lay)
     if r is not None:
         return r
     key, nrg = canonical(path)
@@ -290,14 +515,19 @@ def run(point):
 
 
 def _short(op):
-    return "%s(%s)" % (op["op"], op.get("frame") or op.get("rgs") or "")
+    return "%s(%s%s%s)" % (op["op"], op.get("frame") or op.get("rgs") or "",
+                           ",chunks" if op.get("offsets") else "", ",same object" if op.get("reuse") else "")
 
 
 LEVEL_TEXT = ("Explicit-state BFS (depth 2 quick / 3 thorough after the initial write) over write / append / partition "
-              "overwrite / removal of every subset of the first four row groups / sorted write / renumbering on hive "
-              "datasets with 0, 1 and 2 partition columns, re-opening the dataset from disk for every step; in every "
-              "reached state the content is compared with a dict-of-rows model and the summary metadata is checked "
-              "against the directory (dangling references, unreferenced part files, row counts, schemas).")
+              "overwrite (also in several chunks) / removal of every subset of the first four row groups, of the last "
+              "and of all / sorted write / renumbering / plain re-write / refused writes, on hive datasets with 0, 1 "
+              "and 2 partition columns (string, integer and timestamp values, with and without a written index, part "
+              "numbers up to two digits), re-opening the dataset from disk for every step or keeping the object of "
+              "the previous step; in every reached state the content is compared with a dict-of-rows model and the "
+              "summary metadata is checked against the directory (dangling references, unreferenced part files, row "
+              "counts, schemas, file of every column chunk), the object operated on against a re-opened one, and the "
+              "part numbering / row-group order against what renumbering, sort_key and overwrite document.")
 LEVEL_NOTE = ("Trusted: multiset-of-rows model, specpq footer reader for the part files. States are merged on (row-group "
               "order in _metadata, part file names and bytes), which includes the part numbers later transitions depend on.")
 TECHNIQUE = "explicit-state BFS over dataset edit histories on the real directory, multiset reference model, metadata-vs-directory invariants"
